@@ -556,7 +556,7 @@ def _request_job(a):
     arena = Arena()
     # budget: the same number of checked memory accesses per request, not the same number of runs
     per_run = max(1, sum(est.values()) // max(1, len(est))) * 6  # ~2.5 batches x ~2.5 jobs
-    budget = int(os.environ.get("VERIF_ACCESS_BUDGET", 0)) or (2_000_000_000 if thorough else 120_000_000)
+    budget = int(os.environ.get("VERIF_ACCESS_BUDGET", 0)) or (3_000_000_000 if thorough else 400_000_000)
     nruns = max(40, min(nruns, budget // per_run))
     scns = explicit if explicit is not None else [
         gen_run(core.run_seed(base, i) * 1009 + int(hashlib.sha1(name.encode()).hexdigest()[:6], 16), len(first.kernels),
@@ -661,14 +661,10 @@ def run_check(prop, tier, base, replay_path=None):
     thorough = tier == "thorough"
     verd = core.Verdicts(prop)
     names = kernel_requests(thorough)
-    nruns = int(os.environ.get("VERIF_RUNS", 0)) or (20000 if thorough else 2000)
+    nruns = int(os.environ.get("VERIF_RUNS", 0)) or (20000 if thorough else 6000)
     workroot = core.scratch_dir("kern-")
-    opts = ["-O2", "-O1"] if thorough else ["-O2"]
+    opts = ["-O2", "-O1", "-O0"] if thorough else ["-O2", "-O1"]
     jobs = [(n, o, base, nruns, thorough, workroot, None) for n in names for o in opts]
-    if not thorough:
-        # both optimisation levels for a rotating third of the pool
-        jobs += [(n, "-O1", base, nruns // 2, thorough, workroot, None)
-                 for i, n in enumerate(names) if (i + base) % 3 == 0]
     try:
         rt()
         results = core.pmap(_request_job, jobs, wall_cap=3000)
